@@ -78,7 +78,9 @@ def run_kernel(c):
             yi = y.astype("int16")
             o, l = ops.ws2doptvplc(yi, nd, float(c["p"]), float(c["lc"]))
             interpreted(ops.ws2doptvplc, r)(yi, nd, float(c["p"]), float(c["lc"]), out, lopt)
+        fx = ops.ws2dgu(y, float(l), nd) if k == "optv" else ops.ws2dpgu(y, float(l), nd, float(c["p"]))
         rec = dict(out=[int(v) for v in o], lopt=float(l), interp_out=[int(v) for v in out], interp_lopt=float(lopt[0]),
+                   fixed_out=[int(v) for v in fx],
                    log=distinct((a[0], v) for a, v in r.tables.get("log", [])),
                    pow=distinct((a[1], v) for a, v in r.tables.get("pow", []) if a[0] == 10.0))
         return rec
@@ -87,7 +89,8 @@ def run_kernel(c):
             o, l = ops.ws2dwcv(y, nd, llas, bool(c["robust"]))
         else:
             o, l = ops.ws2dwcvp(y, nd, float(c["p"]), llas, bool(c["robust"]))
-        return dict(out=[int(v) for v in o], lopt=float(l),
+        fx = ops.ws2dgu(y, float(l), nd) if k == "wcv" else ops.ws2dpgu(y, float(l), nd, float(c["p"]))
+        return dict(out=[int(v) for v in o], lopt=float(l), fixed_out=[int(v) for v in fx],
                     cos=[[(j * math.pi) / n, math.cos((j * math.pi) / n)] for j in range(n)],
                     pow=[[float(x), pow(10.0, float(x))] for x in llas])
     raise ValueError(k)
@@ -154,7 +157,15 @@ def main():
             out["kernels"].append(dict(error="%s: %s" % (type(e).__name__, e)))
     for c in P.get("accessors", []):
         try:
-            out["accessors"].append(run_accessor(c))
+            r = run_accessor(c)
+            if c.get("pixel_cases"):          # the same pixels through the kernel, in this process
+                r["pixels"] = []
+                for pc in c["pixel_cases"]:
+                    try:
+                        r["pixels"].append(run_kernel(pc))
+                    except Exception as e:  # noqa
+                        r["pixels"].append(dict(error="%s: %s" % (type(e).__name__, e)))
+            out["accessors"].append(r)
         except Exception as e:  # noqa
             out["accessors"].append(dict(error="%s: %s" % (type(e).__name__, e)))
     print("@@RESULT@@" + json.dumps(out))
